@@ -405,6 +405,11 @@ func (c *RemoteClient) DumpDatabase(dbOID uint32) *DatabaseDump {
 		if strings.HasPrefix(t.Name, "pg_") || strings.HasPrefix(t.Name, "sql_") {
 			continue
 		}
+		// ordinary tables only, like DumpDatabaseFromFiles: indexes, sequences, TOAST tables and
+		// materialized views are relations with storage too, but not tables of the dump
+		if t.Kind != "r" && t.Kind != "" {
+			continue
+		}
 		if td := c.DumpTable(dbOID, &t); td != nil && len(td.Rows) > 0 {
 			dump.Tables = append(dump.Tables, *td)
 		}
